@@ -33,13 +33,13 @@ const fdTol = 1e-6
 const fdStable = 1e-7
 
 type fdOracle struct {
-	pb     *problem
-	exec   func(ins []*input) ([]float64, string)
-	base   []float64
-	defect func(ins []*input, vals []float64) string
-	inS    float64 // scale of the inputs
-	outS   float64 // scale of the outputs
-	iterDiff bool // a stencil point needed another number of iterations
+	pb       *problem
+	exec     func(ins []*input) ([]float64, string)
+	base     []float64
+	defect   func(ins []*input, vals []float64) string
+	inS      float64 // scale of the inputs
+	outS     float64 // scale of the outputs
+	iterDiff bool    // a stencil point needed another number of iterations
 }
 
 func newFD(pb *problem, fvals []float64, exec func(ins []*input) ([]float64, string), defect func(ins []*input, vals []float64) string) *fdOracle {
